@@ -11,8 +11,8 @@ Four observations per run (DESIGN.md section 7, C20):
      error logged <=> something failed; and against the model;
  (d) heap safety is observed: every case runs to completion in a process built with debug assertions
      (`Box::from_raw(null)`, misaligned or dangling `from_raw_parts` abort there); an abort is attributed to
-     its case. The thorough tier additionally runs a sample under valgrind (invalid free / invalid read /
-     definite leak).
+     its case. A sample (small in the quick tier, larger in the thorough tier) additionally runs under
+     valgrind when valgrind works on the binary (invalid free / invalid read / definite leak).
 """
 import json
 import os
@@ -275,7 +275,7 @@ def run(ctx):
                 "non-trivial = the parse succeeded and the getters' structs were compared (view) or the sequence ran to the "
                 "writers (seq); distinct by case-line hash")
     ctx.assumptions = [
-        "heap safety is observed, not proved: every case must run to completion in the dev-profile process (debug assertions abort on Box::from_raw(null) and invalid from_raw_parts); the thorough tier additionally runs a sample under valgrind (invalid free/read, definite leaks) when valgrind works on the binary",
+        "heap safety is observed, not proved: every case must run to completion in the dev-profile process (debug assertions abort on Box::from_raw(null) and invalid from_raw_parts); a sample (450 cases quick, 3600 thorough) additionally runs under valgrind (invalid free/read, definite leaks) when valgrind works on the binary",
         "the executor reads the returned pointers through its own repr(C) mirror declarations (field order and types of the unchanged tree's dovi.h); `capi.layout` compares the mirror sizes with the crate's struct sizes",
         "free_once assumes no component carries both a polynomial and an MMR curve (the parser rejects mixed components since 324e2a5); the model driver evaluates this hypothesis on every parsed case and flags a violation",
         "the state a failed dovi_convert_rpu_with_mode / set_active_area_offsets leaves behind is compared C vs Rust (exactly) but not modelled: the model answers `operr i` from the first failing operation on",
@@ -285,7 +285,7 @@ def run(ctx):
     os.makedirs(common.WORK, exist_ok=True)
     rng = ctx.rng.fork("c20")
     quick = ctx.tier == "quick"
-    n = 1500 if quick else 25000
+    n = 3000 if quick else 25000
 
     # ---------------------------------------------------------------------------------------------
     # layout of the mirrors
@@ -380,9 +380,14 @@ def run(ctx):
     for (kind, entry, b), l, m, v, j in zip(cases, view_lines, mo, vo, jo):
         ctx.count("kind=" + kind)
         ctx.count("entry=" + entry)
-        ctx.count("getter order %d / free order %d / handle freed %s" % (len(b) % 6, (len(b) // 6) % 6, "first" if (len(b) // 36) % 2 else "last"))
+        ctx.count("getter order %d" % (len(b) % 6))
+        ctx.count("free order %d" % ((len(b) // 6) % 6))
+        ctx.count("handle freed %s" % ("before reading the structs" if (len(b) // 36) % 2 else "last"))
         ctx.count("view=" + v.split(" ")[0].split(":")[0])
-        if v in ("abort", "timeout", "not-run") or v.startswith("panic"):
+        if v == "not-run":
+            ctx.count("not run (more than 200 process deaths in the shard)")
+            continue
+        if v in ("abort", "timeout") or v.startswith("panic"):
             ctx.oracle_fail({"op": "capi.view " + entry, "input": hx(b)[:6000], "observed": v,
                              "expected": "the call sequence parse -> getters -> frees returns", "shape": "abort" if v == "abort" else v.split(":")[0]})
             continue
@@ -424,7 +429,7 @@ def run(ctx):
     # (c): call sequences
     # ---------------------------------------------------------------------------------------------
     parsed = [b for (kind, entry, b), v in zip(cases, vo) if entry == "rpu" and v.startswith("ok {")]
-    nseq = 2500 if quick else 40000
+    nseq = 5000 if quick else 40000
     seq_args = []
     for i in range(nseq):
         b = parsed[i % len(parsed)] if i < len(parsed) else rng.choice(parsed)
@@ -449,7 +454,10 @@ def run(ctx):
         ops = a.split(" ")[1]
         for op in (ops.split(";") if ops != "-" else []):
             ctx.count("op=" + (op if op.startswith("mode") else op.split(":")[0]))
-        if c in ("abort", "timeout", "not-run") or c.startswith("panic"):
+        if c == "not-run":
+            ctx.count("not run (more than 200 process deaths in the shard)")
+            continue
+        if c in ("abort", "timeout") or c.startswith("panic"):
             ctx.oracle_fail({"op": "capi.seq", "input": a[:6000], "observed": c, "expected": rust[:300],
                              "shape": "abort" if c == "abort" else c.split(":")[0]})
             continue
@@ -471,24 +479,32 @@ def run(ctx):
             ctx.disagree("capi.seq", l[:3000], m[:1500], c[:1500])
 
     # ---------------------------------------------------------------------------------------------
-    # (d) thorough: a sample under valgrind
+    # (d) a sample under valgrind (small in the quick tier)
     # ---------------------------------------------------------------------------------------------
-    if not quick:
-        if valgrind_usable():
-            ok_views = [l for l, v in zip(view_lines, vo) if v.startswith("ok {")]
-            err_views = [l for l, v in zip(view_lines, vo) if v == "err"]
-            sample = ok_views[:1200] + err_views[:300] + seq_lines[:800]
+    if valgrind_usable():
+        ok_views = [l for l, v in zip(view_lines, vo) if v.startswith("ok {")]
+        err_views = [l for l, v in zip(view_lines, vo) if v == "err"]
+        seq_done = [l for l, c in zip(seq_lines, so) if c.startswith("ok ")]
+        k = 1 if quick else 8
+        sample = ok_views[:: max(1, len(ok_views) // (250 * k))][: 250 * k] + err_views[: 50 * k] + \
+            seq_done[:: max(1, len(seq_done) // (150 * k))][: 150 * k]
+        try:
             r = subprocess.run(["valgrind", "-q", "--error-exitcode=9", "--leak-check=full",
                                 "--errors-for-leak-kinds=definite,indirect", common.LIBCASE],
-                               input="\n".join(sample) + "\n", capture_output=True, text=True, timeout=3000)
-            ctx.extra["valgrind"] = {"cases": len(sample), "rc": r.returncode}
-            ctx.evaluations += len(sample)
-            if r.returncode != 0:
-                ctx.oracle_fail({"op": "valgrind", "input": "%d sampled capi.view / capi.seq lines" % len(sample),
-                                 "observed": r.stderr[-3000:], "expected": "no invalid free/read, no definite leak", "shape": "valgrind"})
-        else:
-            ctx.notes.append("valgrind is not usable on the executor binary here: the heap check is process survival only")
-            ctx.extra["valgrind"] = "unavailable"
+                               input="\n".join(sample) + "\n", capture_output=True, text=True, timeout=3000,
+                               env=dict(os.environ, VERIF_WORK=common.WORK))
+            rc, err = r.returncode, r.stderr
+        except subprocess.TimeoutExpired:
+            rc, err = -1, "valgrind run timed out"
+        ctx.extra["valgrind"] = {"cases": len(sample), "rc": rc}
+        ctx.evaluations += len(sample)
+        ctx.count("valgrind sample", len(sample))
+        if rc != 0:
+            ctx.oracle_fail({"op": "valgrind", "input": "%d sampled capi.view / capi.seq lines" % len(sample),
+                             "observed": err[-3000:], "expected": "no invalid free/read, no definite leak", "shape": "valgrind"})
+    else:
+        ctx.notes.append("valgrind is not usable on the executor binary here: the heap check is process survival only")
+        ctx.extra["valgrind"] = "unavailable"
     for l in view_lines[:2] + seq_lines[:3]:
         ctx.sample(l[:500])
 
